@@ -297,8 +297,11 @@ def run_history(rep, case):
             bad = c if c[0] == "raise" else u
             return ("raises_differ", step, f"{where}: cache=True -> {c[0]}, cache=False -> {u[0]} ({bad[1]}: {bad[2][:300]})")
         if c[0] == "raise":
+            # every pool member is a valid contraction with a valid optimize argument: the reference has
+            # a value, so a call that raises in BOTH modes is a wrong answer too (e.g. a dispatch decision
+            # memoised by an earlier, different call)
             rep.count("both_raise", f"{api}:{c[1]}")
-            continue
+            return ("raises", step, f"{where}: raises with and without caching ({c[1]}: {c[2][:300]}); calls before: {[(pool[a]['tag'], b) for a, b, _ in case['calls'][:step]][-6:]}")
         if api == "path":
             rep.mon("path_equal")
             if c[1] != u[1]:
@@ -307,7 +310,8 @@ def run_history(rep, case):
                 n_in = len(m["raw"]["inputs"])
             else:
                 n_in = net.N
-            msg = ref.check_linear_path(n_in, c[1]) if not isinstance(thaw_optimize(m), (list, tuple)) else None
+            # (an explicit path is handed back as given: it may be partial, but it must be a LINEAR path)
+            msg = ref.check_linear_path(n_in, c[1], allow_incomplete=isinstance(thaw_optimize(m), (list, tuple)))
             if msg:
                 return ("path_invalid", step, f"{where}: {msg}")
             continue
